@@ -541,6 +541,13 @@ func checkInterest(val *Interest, context *InterestParsingContext) error {
 	if val.SignatureValue != nil && val.ApplicationParameters == nil {
 		return enc.ErrIncorrectDigest
 	}
+	if val.ApplicationParameters == nil {
+		// A trailing parameters digest without parameters: the parameters were lost or tampered with
+		name := val.NameV
+		if len(name) > 0 && name[len(name)-1].Typ == enc.TypeParametersSha256DigestComponent {
+			return enc.ErrIncorrectDigest
+		}
+	}
 	if val.ApplicationParameters != nil {
 		// Check digest
 		name := val.NameV
